@@ -43,7 +43,7 @@ META = {
             "families, payload width 8/10/16/32, StreamInterface / HeaderQueue / SuperSpeed stream types; 20% of runs "
             "contain withdraw faults",
 }
-TIERS = {"quick": {"runs": 6000, "wall": 70}, "thorough": {"runs": 40000, "wall": 900}}
+TIERS = {"quick": {"runs": 12000, "wall": 70}, "thorough": {"runs": 40000, "wall": 900}}
 
 HEADER_FIELDS = [("dw0", 32), ("dw1", 32), ("dw2", 32), ("crc16", 16), ("sequence_number", 3), ("dw3_reserved", 3),
                  ("hub_depth", 3), ("delayed", 1), ("deferred", 1), ("crc5", 5)]
